@@ -1,4 +1,4 @@
-// GENERATED on every run by vlib/extract.py from /tmp/seedcheck-32666 -- do not edit
+// GENERATED on every run by vlib/extract.py from /repo -- do not edit
 #![allow(unused_imports, unused_variables, unused_mut, dead_code, unused_parens, unused_braces, non_snake_case)]
 use vstd::prelude::*;
 use core::cmp::Ordering;
@@ -437,7 +437,7 @@ pub struct QualifierKey(pub SmallString);
 pub struct Qualifiers {
     pub qualifiers: Vec<(QualifierKey, SmallString)>,
 }
-// ---- unit T.PurlParts  <= purl/src/lib.rs:213 ----
+// ---- unit T.PurlParts  <= purl/src/lib.rs:212 ----
 pub struct PurlParts {
     pub namespace: SmallString,
     pub name: SmallString,
@@ -1376,7 +1376,7 @@ pub struct GenericPurlBuilder<T> {
     pub package_type: T,
     pub parts: PurlParts,
 }
-// ---- unit T.GenericPurl  <= purl/src/lib.rs:252 ----
+// ---- unit T.GenericPurl  <= purl/src/lib.rs:251 ----
 pub struct GenericPurl<T> {
     pub package_type: T,
     pub parts: PurlParts,
@@ -1671,7 +1671,7 @@ pub fn decode_namespace(namespace: &str) -> (r: Result<SmallString, ParseError>)
         Err(e) => ns_fold(split_spec(trim_spec(namespace@, '/'), '/')) is None && e == ParseError::InvalidEscape,
     }
 { unimplemented!() }
-// ---- unit U-vtype.is_valid_package_type  <= purl/src/lib.rs:381 ----
+// ---- unit U-vtype.is_valid_package_type  <= purl/src/lib.rs:380 ----
 #[verifier::external_body]
 pub fn is_valid_package_type(package_type: &str) -> (r: bool)
     ensures r == valid_type(package_type@)
@@ -1863,6 +1863,224 @@ let s = match x_rsplit_once(s, '@') {
         }
 GenericPurlBuilder { package_type, parts }.build()
     }
+// ---- property lemmas ----
+// ---- C07 (L-seg): what a successful fold looks like ----
+/// ASSUMED (A: bounded replay against the real decoder): a non-empty piece never decodes to the empty string
+#[verifier::external_body]
+pub proof fn axiom_dec_nonempty(p: Seq<char>)
+    requires p.len() > 0, dec(p) is Some
+    ensures dec(p)->Some_0.len() > 0
+{ }
+
+pub open spec fn join_segs(segs: Seq<Seq<char>>) -> Seq<char> decreases segs.len()
+{ if segs.len() == 0 { Seq::<char>::empty() } else { join_push(join_segs(segs.drop_last()), segs.last()) } }
+
+/// the decoded, non-skipped pieces of a subpath (meaningful when sub_fold is Some)
+pub open spec fn sub_segs(pieces: Seq<Seq<char>>) -> Seq<Seq<char>> decreases pieces.len()
+{
+    if pieces.len() == 0 { Seq::<Seq<char>>::empty() }
+    else if sub_skipped(pieces.last()) { sub_segs(pieces.drop_last()) }
+    else { sub_segs(pieces.drop_last()).push(dec(pieces.last())->Some_0) }
+}
+pub open spec fn ns_segs(pieces: Seq<Seq<char>>) -> Seq<Seq<char>> decreases pieces.len()
+{
+    if pieces.len() == 0 { Seq::<Seq<char>>::empty() }
+    else if ns_skipped(pieces.last()) { ns_segs(pieces.drop_last()) }
+    else { ns_segs(pieces.drop_last()).push(dec(pieces.last())->Some_0) }
+}
+
+pub open spec fn clean_sub_seg(s: Seq<char>) -> bool { s.len() > 0 && !has_char(s, '/') && !is_dot(s) && !is_dotdot(s) }
+pub open spec fn clean_ns_seg(s: Seq<char>) -> bool { s.len() > 0 && !has_char(s, '/') }
+
+/// a successful subpath fold is the '/'-join of the decoded non-skipped pieces, every one of them clean
+pub proof fn lemma_sub_fold_shape(ps: Seq<Seq<char>>)
+    requires sub_fold(ps) is Some
+    ensures
+        sub_fold(ps)->Some_0 == join_segs(sub_segs(ps)),
+        forall|i: int| 0 <= i < sub_segs(ps).len() ==> clean_sub_seg(#[trigger] sub_segs(ps)[i]),
+    decreases ps.len()
+{
+    if ps.len() > 0 {
+        let init = ps.drop_last();
+        lemma_sub_fold_shape(init);
+        if !sub_skipped(ps.last()) {
+            axiom_dec_nonempty(ps.last());
+            let d = dec(ps.last())->Some_0;
+            let segs = sub_segs(ps);
+            assert(segs.drop_last() == sub_segs(init));
+            assert forall|i: int| 0 <= i < segs.len() implies clean_sub_seg(#[trigger] segs[i]) by {
+                if i < segs.len() - 1 { assert(segs[i] == sub_segs(init)[i]); }
+            }
+        }
+    }
+}
+pub proof fn lemma_ns_fold_shape(ps: Seq<Seq<char>>)
+    requires ns_fold(ps) is Some
+    ensures
+        ns_fold(ps)->Some_0 == join_segs(ns_segs(ps)),
+        forall|i: int| 0 <= i < ns_segs(ps).len() ==> clean_ns_seg(#[trigger] ns_segs(ps)[i]),
+    decreases ps.len()
+{
+    if ps.len() > 0 {
+        let init = ps.drop_last();
+        lemma_ns_fold_shape(init);
+        if !ns_skipped(ps.last()) {
+            axiom_dec_nonempty(ps.last());
+            let segs = ns_segs(ps);
+            assert(segs.drop_last() == ns_segs(init));
+            assert forall|i: int| 0 <= i < segs.len() implies clean_ns_seg(#[trigger] segs[i]) by {
+                if i < segs.len() - 1 { assert(segs[i] == ns_segs(init)[i]); }
+            }
+        }
+    }
+}
+
+pub proof fn lemma_first_index_prefix(a: Seq<char>, b: Seq<char>, c: char)
+    requires has_char(a, c)
+    ensures first_index_of(a + b, c) == first_index_of(a, c)
+    decreases a.len()
+{
+    lemma_first_index(a, c);
+    if a.len() > 0 {
+        assert((a + b)[0] == a[0]);
+        if a[0] != c {
+            let a1 = a.subrange(1, a.len() as int);
+            assert((a + b).subrange(1, (a + b).len() as int) =~= a1 + b);
+            let i = choose|i: int| 0 <= i < a.len() && a[i] == c;
+            assert(a1[i - 1] == c);
+            lemma_first_index_prefix(a1, b, c);
+        }
+    }
+}
+
+pub proof fn lemma_split_no_sep(s: Seq<char>, c: char)
+    requires !has_char(s, c)
+    ensures split_spec(s, c) == seq![s]
+{
+    lemma_first_index(s, c);
+}
+
+/// appending `c` and a `c`-free tail appends one piece
+pub proof fn lemma_split_append(a: Seq<char>, b: Seq<char>, c: char)
+    requires !has_char(b, c)
+    ensures split_spec(a + seq![c] + b, c) == split_spec(a, c).push(b)
+    decreases a.len()
+{
+    let s = a + seq![c] + b;
+    lemma_first_index(a, c);
+    if !has_char(a, c) {
+        lemma_split_join(a, b, c);
+        assert(s.subrange(0, a.len() as int) =~= a);
+        assert(s.subrange(a.len() as int + 1, s.len() as int) =~= b);
+        lemma_split_no_sep(b, c);
+        lemma_split_no_sep(a, c);
+        assert(split_spec(s, c) =~= seq![a].push(b));
+    } else {
+        let i = first_index_of(a, c);
+        assert(s =~= a + (seq![c] + b));
+        lemma_first_index_prefix(a, seq![c] + b, c);
+        let rest = a.subrange(i + 1, a.len() as int);
+        assert(s.subrange(0, i) =~= a.subrange(0, i));
+        assert(s.subrange(i + 1, s.len() as int) =~= rest + seq![c] + b);
+        lemma_split_append(rest, b, c);
+        assert(split_spec(s, c) =~= split_spec(a, c).push(b));
+    }
+}
+
+pub proof fn lemma_join_nonempty(segs: Seq<Seq<char>>)
+    requires segs.len() > 0, forall|i: int| 0 <= i < segs.len() ==> (#[trigger] segs[i]).len() > 0
+    ensures join_segs(segs).len() > 0
+{
+}
+
+/// C07: splitting the reported namespace / subpath at '/' gives back exactly the clean segments -- no empty
+/// segment, hence no leading or trailing '/', and an escape neither split nor joined anything
+pub proof fn lemma_split_of_join(segs: Seq<Seq<char>>)
+    requires segs.len() > 0, forall|i: int| 0 <= i < segs.len() ==> (#[trigger] segs[i]).len() > 0 && !has_char(segs[i], '/')
+    ensures split_spec(join_segs(segs), '/') == segs
+    decreases segs.len()
+{
+    let init = segs.drop_last();
+    if init.len() == 0 {
+        assert(join_segs(segs) == segs[0]);
+        lemma_split_no_sep(segs[0], '/');
+        assert(segs =~= seq![segs[0]]);
+    } else {
+        assert forall|i: int| 0 <= i < init.len() implies (#[trigger] init[i]).len() > 0 && !has_char(init[i], '/') by { assert(init[i] == segs[i]); }
+        lemma_split_of_join(init);
+        lemma_join_nonempty(init);
+        lemma_split_append(join_segs(init), segs.last(), '/');
+        assert(init.push(segs.last()) =~= segs);
+    }
+}
+
+/// C07, as stated: for every accepted subpath text
+pub proof fn lemma_c07_subpath(ps: Seq<Seq<char>>)
+    requires sub_fold(ps) is Some
+    ensures ({
+        let out = sub_fold(ps)->Some_0;
+        if sub_segs(ps).len() == 0 { out.len() == 0 }      // reported as "no subpath"
+        else {
+            split_spec(out, '/') == sub_segs(ps)
+            && forall|i: int| 0 <= i < sub_segs(ps).len() ==> clean_sub_seg(#[trigger] sub_segs(ps)[i])
+        }
+    })
+{
+    lemma_sub_fold_shape(ps);
+    if sub_segs(ps).len() > 0 { lemma_split_of_join(sub_segs(ps)); }
+}
+pub proof fn lemma_c07_namespace(ps: Seq<Seq<char>>)
+    requires ns_fold(ps) is Some
+    ensures ({
+        let out = ns_fold(ps)->Some_0;
+        if ns_segs(ps).len() == 0 { out.len() == 0 }
+        else {
+            split_spec(out, '/') == ns_segs(ps)
+            && forall|i: int| 0 <= i < ns_segs(ps).len() ==> clean_ns_seg(#[trigger] ns_segs(ps)[i])
+        }
+    })
+{
+    lemma_ns_fold_shape(ps);
+    if ns_segs(ps).len() > 0 { lemma_split_of_join(ns_segs(ps)); }
+}
+
+/// C07, as stated, for every string the two phases accept: the reported namespace and subpath are '/'-joins of clean segments
+/// (none empty, none containing '/', subpath segments not '.' or '..'), or absent
+pub proof fn lemma_c07_of_phases(s: Seq<char>)
+    requires phase_a(s) is Ok, phase_b(phase_a(s)->Ok_0.rest) is Ok
+    ensures ({
+        let a = phase_a(s)->Ok_0;
+        let b = phase_b(a.rest)->Ok_0;
+        (b.ns.len() == 0 || exists|segs: Seq<Seq<char>>| #![auto] segs.len() > 0 && b.ns == join_segs(segs) && split_spec(b.ns, '/') == segs
+            && forall|i: int| 0 <= i < segs.len() ==> clean_ns_seg(#[trigger] segs[i]))
+        && (a.sub.len() == 0 || exists|segs: Seq<Seq<char>>| #![auto] segs.len() > 0 && a.sub == join_segs(segs) && split_spec(a.sub, '/') == segs
+            && forall|i: int| 0 <= i < segs.len() ==> clean_sub_seg(#[trigger] segs[i]))
+    })
+{
+    let a = phase_a(s)->Ok_0;
+    let b = phase_b(a.rest)->Ok_0;
+    // subpath
+    let s1 = trim_start_spec(s.subrange("pkg:"@.len() as int, s.len() as int), '/');
+    match rsplit_at(s1, '#').1 {
+        None => { assert(a.sub.len() == 0); },
+        Some(x) => {
+            let ps = split_spec(trim_spec(x, '/'), '/');
+            lemma_c07_subpath(ps);
+            lemma_sub_fold_shape(ps);
+            if sub_segs(ps).len() > 0 { assert(a.sub == join_segs(sub_segs(ps))); }
+        },
+    }
+    // namespace
+    let r1 = rsplit_at(a.rest, '@').0;
+    if last_index_of(r1, '/') >= 0 {
+        let x = r1.subrange(0, last_index_of(r1, '/'));
+        let ps = split_spec(trim_spec(x, '/'), '/');
+        lemma_c07_namespace(ps);
+        lemma_ns_fold_shape(ps);
+        if ns_segs(ps).len() > 0 { assert(b.ns == join_segs(ns_segs(ps))); }
+    } else { assert(b.ns.len() == 0); }
+}
+
 
 // ---- consistency canary: must be REJECTED; if it verifies the assumptions are contradictory ----
 pub proof fn verif_canary_must_fail()
